@@ -253,11 +253,18 @@ def crash_enumeration(d: bi.Dir, pages, run_cmd, res, step, action, opts) -> Non
             for k, e in enumerate(effects):
                 if e["kind"] == "write":
                     points += [("torn", k, 0.0), ("torn", k, 0.5), ("torn", k, 0.97)]
+        # second-order points (opts["double"] = samples per first point): the rerun is killed as well, before one of its
+        # own effects, and only the run after that is allowed to finish
+        import random as _random
+        rng2 = _random.Random(len(effects) * 7919 + step)
+        if opts.get("double"):
+            points += [("double", k, float(rng2.randrange(0, len(effects) + 2))) for k in range(len(effects))
+                       for _ in range(opts["double"])]
         for mode, k, keep in points:
             env.restore(snap)
             crashed = False
             try:
-                kw = {"crash_before": k} if mode == "before" else {"torn_at": k, "torn_keep": keep}
+                kw = {"crash_before": k} if mode in ("before", "double") else {"torn_at": k, "torn_keep": keep}
                 with Interposer(env.zdir, **kw):
                     run_cmd()
             except SimulatedCrash:
@@ -269,6 +276,14 @@ def crash_enumeration(d: bi.Dir, pages, run_cmd, res, step, action, opts) -> Non
                 continue
             where = {"point": mode, "effect_index": k, "effect": f"{effects[k]['kind']}:{effects[k]['target']}",
                      "keep": keep, "effects": [f"{e['kind']}:{e['target']}" for e in effects]}
+            if mode == "double":
+                try:
+                    with Interposer(env.zdir, crash_before=int(keep)):
+                        run_cmd()
+                except SimulatedCrash:
+                    res["second_crashes"] = res.get("second_crashes", 0) + 1
+                zenv.reset_process_state()
+                where["second_crash_before_effect_of_rerun"] = int(keep)
             r1 = run_cmd()
             if not r1.ok:
                 _issue(res, step, action, f"crash.rerun-failed.{mode}", dict(where, rc=r1.rc))
